@@ -1,7 +1,9 @@
 (* C16 - wire types are self-delimiting, strict on short input, and invert exactly (generic codec part;
    C-structs and NVRAM containers: Wire/CStruct*.v, Wire/Nvram*.v). *)
 From Coq Require Import NArith List Bool.
+From Coq Require Import ZArith.
 From ZB Require Import Base.Bytes Wire.Wty Wire.WtyProofs.
+From ZB Require Wire.CStruct Wire.CStructProofs Wire.Nvram Wire.NvramProofs.
 Import ListNotations.
 Open Scope N_scope.
 
@@ -42,3 +44,189 @@ Example C16_instance : let t := TStruct [TInt 1; TLVList 1 (TInt 2); TSimpleDesc
   let v := VList [VInt 7; VList [VInt 513; VInt 2]; VList [VInt 1; VInt 260; VInt 5; VInt 0; VList [VInt 6]; VList []]] in
   selfdelim t = true /\ valid t v = true /\ dec t (enc t v ++ [9; 9]) = Some (v, [9; 9]).
 Proof. vm_compute. repeat split. Qed.
+
+(* ====================================================================== *)
+(* C-style structs (both alignment modes) and NVRAM dataset containers *)
+Module CStructPart.
+Import ZB.Wire.CStruct ZB.Wire.CStructProofs ZB.Wire.Nvram ZB.Wire.NvramProofs.
+Import ListNotations.
+Open Scope nat_scope.
+
+(* ---- layout ---- *)
+(* alignment of an int field = its size when alignment is requested, 1 otherwise; byte fields 1;
+   a nested struct counts with its own size and alignment *)
+Theorem C16cs_int_alignment_is_its_size : forall s,
+  size_align true (CInt s) = (s, s) /\ size_align false (CInt s) = (s, 1).
+Proof. exact int_alignment_is_size. Qed.
+Print Assumptions C16cs_int_alignment_is_its_size.
+
+Theorem C16cs_nested_struct_size_and_alignment : forall al fs,
+  size_align al (CNested fs) = (cs_size al fs, cs_alignment al fs) /\
+  cs_alignment al fs = fold_right Nat.max 0 (map (fun f => snd (size_align al f)) fs).
+Proof. intros al fs. split; [exact (nested_size_align al fs)|exact (struct_alignment_is_max al fs)]. Qed.
+Print Assumptions C16cs_nested_struct_size_and_alignment.
+
+(* both modes: paddings follow the natural-alignment rule (each field at the first multiple of its alignment at
+   or after the end of the previous field; padding minimal) - and that rule determines them uniquely *)
+Theorem C16cs_layout_is_the_natural_one : forall al fs, wf (CNested fs) = true ->
+  natural_layout 0 (map (size_align al) fs) (cs_padded al fs) /\
+  (forall pads, natural_layout 0 (map (size_align al) fs) pads -> pads = cs_padded al fs).
+Proof. intros al fs H. split; [exact (layout_is_natural al fs H)|intros pads; exact (layout_is_the_only_natural_one al fs pads H)]. Qed.
+Print Assumptions C16cs_layout_is_the_natural_one.
+
+Theorem C16cs_field_offsets_aligned_padding_minimal : forall al fs, wf (CNested fs) = true ->
+  forall i, i < length fs ->
+    let f := nth i fs (CBytes 0) in
+    let a := snd (size_align al f) in
+    let o := nth i (cs_offsets al fs) 0 in
+    let p := fst (nth i (cs_padded al fs) (0, 0)) in
+    snd (nth i (cs_padded al fs) (0, 0)) = fst (size_align al f) /\
+    p < a /\ o mod a = 0 /\
+    o = (match i with 0 => 0 | S j => nth j (ends_from 0 (cs_padded al fs)) 0 end) + p.
+Proof. exact aligned_field_offsets. Qed.
+Print Assumptions C16cs_field_offsets_aligned_padding_minimal.
+
+(* total size: first multiple of the struct alignment (= max field alignment) at or after the last field's end *)
+Theorem C16cs_size_is_natural : forall al fs, wf (CNested fs) = true ->
+  natural_total (map (size_align al) fs) (cs_padded al fs) (cs_size al fs) (cs_alignment al fs).
+Proof. exact size_is_natural. Qed.
+Print Assumptions C16cs_size_is_natural.
+
+(* packed: no padding, offset = sum of the preceding sizes, size = sum of the sizes *)
+Theorem C16cs_packed_layout : forall fs, wf (CNested fs) = true ->
+  cs_alignment false fs = 1 /\
+  cs_padded false fs = map (fun s => (0, s)) (field_sizes false fs) /\
+  cs_offsets false fs = prefix_sums 0 (field_sizes false fs) /\
+  cs_size false fs = list_sum (field_sizes false fs).
+Proof. exact packed_layout. Qed.
+Print Assumptions C16cs_packed_layout.
+
+Theorem C16cs_packed_field_offset : forall fs i, wf (CNested fs) = true -> i < length fs ->
+  nth i (cs_offsets false fs) 0 = list_sum (firstn i (field_sizes false fs)).
+Proof. exact packed_field_offset. Qed.
+Print Assumptions C16cs_packed_field_offset.
+
+(* ---- serialize / deserialize ---- *)
+(* for valid values (ints in range, byte fields of the right length): the encoding has exactly `size` bytes,
+   decoding it followed by ANY further bytes returns the value and exactly those bytes, and every proper
+   prefix of it is a ValueError *)
+Theorem C16cs_codec : forall al fs vs, valid (CNested fs) (VStruct vs) = true ->
+  exists b, cs_serialize al fs vs = Some b /\ length b = cs_size al fs /\ bytes_ok b /\
+            (forall r, cs_deserialize al fs (b ++ r) = COk (VStruct vs, r)) /\
+            (forall k, k < length b -> cs_deserialize al fs (firstn k b) = CValueError).
+Proof. exact cs_codec. Qed.
+Print Assumptions C16cs_codec.
+
+(* the encoding is: per field its padding of 0xFF bytes then the field's own encoding; then 0xFF up to the size *)
+Theorem C16cs_serialize_form : forall al fs vs b, cs_serialize al fs vs = Some b ->
+  exists chunks, Forall2 (fun fv c => ser al (fst fv) (snd fv) = Some c) (combine fs vs) chunks /\
+    length vs = length fs /\
+    let body := interleave (cs_padded al fs) chunks in
+    b = body ++ repeat padding_byte (cs_size al fs - length body).
+Proof. exact cs_serialize_form. Qed.
+Print Assumptions C16cs_serialize_form.
+
+Theorem C16cs_serialize_defined_iff_valid : forall al fs vs,
+  valid (CNested fs) (VStruct vs) = true <-> exists b, cs_serialize al fs vs = Some b.
+Proof. exact cs_serialize_defined_iff_valid. Qed.
+Print Assumptions C16cs_serialize_defined_iff_valid.
+
+(* strictness, exactly: ValueError if and only if the input is shorter than the struct size; otherwise exactly
+   `size` bytes are consumed whatever they contain *)
+Theorem C16cs_deserialize_error_iff_short : forall al fs d,
+  (cs_deserialize al fs d = CValueError <-> length d < cs_size al fs) /\
+  (cs_size al fs <= length d -> exists v, cs_deserialize al fs d = COk (v, skipn (cs_size al fs) d)).
+Proof. intros al fs d. split; [exact (cs_deserialize_error_iff_short al fs d)|exact (cs_deserialize_exact al fs d)]. Qed.
+Print Assumptions C16cs_deserialize_error_iff_short.
+
+(* ---- NVRAM datasets ---- *)
+Theorem C16cs_get_byte_size_is_packed_size : forall fs, wf (CNested fs) = true -> zs_size fs = cs_size false fs.
+Proof. exact get_byte_size_is_packed_size. Qed.
+Print Assumptions C16cs_get_byte_size_is_packed_size.
+
+(* address map: what DSNwkAddrMap.serialize writes for any list of fewer than 256 valid records is the read layout
+   (header byte_count = 4 + 16 n, entry_count = n, version 2), parses back to exactly the records and the
+   further bytes, and is rejected when cut short *)
+Theorem C16cs_addr_map_roundtrip : forall rs, Forall (fun x => zs_valid addr_rec_ty x = true) rs -> length rs < 256 ->
+  exists b, serialize_addr_map rs = Some b /\ length b = 6 + 16 * length rs /\
+            (forall r, parse_addr_map (b ++ r) = Some (rs, r)) /\
+            (forall k, k < length b -> parse_addr_map (firstn k b) = None).
+Proof. exact addr_map_roundtrip. Qed.
+Print Assumptions C16cs_addr_map_roundtrip.
+
+Theorem C16cs_addr_map_serialize_form : forall rs items, ser_items addr_rec_ty rs = Some items -> length rs < 256 ->
+  serialize_addr_map rs =
+  Some (addr_map_read_layout (N.of_nat (4 + 16 * length rs)) addr_map_version 0%N (length rs) items).
+Proof. exact addr_map_serialize_form. Qed.
+Print Assumptions C16cs_addr_map_serialize_form.
+
+(* any header values around the entry count (the parser reads entry_count only) *)
+Theorem C16cs_addr_map_parse_read_layout : forall rs items bc ver al r,
+  ser_items addr_rec_ty rs = Some items -> length rs < 256 ->
+  (bc < 65536)%N -> (ver < 256)%N -> (al < 65536)%N ->
+  parse_addr_map (addr_map_read_layout bc ver al (length rs) items ++ r) = Some (rs, r).
+Proof. exact addr_map_parse_read_layout. Qed.
+Print Assumptions C16cs_addr_map_parse_read_layout.
+
+(* APS keys: read layout = u16 (4 + 28 n), any 4 bytes, the n 28-byte entries *)
+Theorem C16cs_aps_keys_roundtrip : forall rs x4, Forall (fun x => zs_valid aps_entry_ty x = true) rs ->
+  length x4 = 4 -> (4 + 28 * N.of_nat (length rs) < 65536)%N ->
+  exists items, ser_items aps_entry_ty rs = Some items /\
+    let b := aps_keys_read_layout x4 (length rs) items in
+    length b = 6 + 28 * length rs /\
+    (forall r, parse_aps_keys (b ++ r) = Some (rs, r)) /\
+    (rs <> [] -> forall k, k < length b -> parse_aps_keys (firstn k b) = None).
+Proof. exact aps_keys_roundtrip. Qed.
+Print Assumptions C16cs_aps_keys_roundtrip.
+
+(* the entry-count arithmetic int((length - 4) / 28) is exact on such layouts *)
+Theorem C16cs_aps_entry_count_exact : forall n, aps_entry_count (N.of_nat (4 + 28 * n)) = n /\
+  Z.rem (Z.of_N (N.of_nat (4 + 28 * n)) - 4) 28 = 0%Z.
+Proof. exact aps_entry_count_exact. Qed.
+Print Assumptions C16cs_aps_entry_count_exact.
+
+(* through nvram.py read(): NVRAMDataset.serialize() of the dataset bytes *)
+Theorem C16cs_datasets_from_read : forall rs items,
+  (forall ver al, ser_items addr_rec_ty rs = Some items -> length rs < 256 -> (ver < 256)%N -> (al < 65536)%N ->
+     parse_addr_map (nvram_read_bytes (le_enc 1 (N.of_nat (length rs)) ++ le_enc 1 ver ++ le_enc 2 al ++ items))
+     = Some (rs, [])) /\
+  (forall x4, ser_items aps_entry_ty rs = Some items -> length x4 = 4 -> (4 + 28 * N.of_nat (length rs) < 65536)%N ->
+     parse_aps_keys (nvram_read_bytes (x4 ++ items)) = Some (rs, [])).
+Proof.
+  intros rs items. split.
+  - intros ver al. exact (addr_map_from_dataset rs items ver al).
+  - intros x4. exact (aps_keys_from_dataset rs items x4).
+Qed.
+Print Assumptions C16cs_datasets_from_read.
+
+(* the asymmetry: DSApsSecureKeys.serialize writes u16 (28 n) + entries, which is NOT the read layout -
+   parsing it can only ever return n - 1 entries *)
+Theorem C16cs_aps_keys_serialize_form : forall rs items, ser_items aps_entry_ty rs = Some items ->
+  (28 * N.of_nat (length rs) < 65536)%N ->
+  serialize_aps_keys rs = Some (le_enc 2 (N.of_nat (28 * length rs)) ++ items).
+Proof. exact aps_keys_serialize_form. Qed.
+Print Assumptions C16cs_aps_keys_serialize_form.
+
+Theorem C16cs_aps_keys_serialize_is_not_read_layout : forall rs items r, ser_items aps_entry_ty rs = Some items ->
+  rs <> [] -> (28 * N.of_nat (length rs) < 65536)%N ->
+  forall b, serialize_aps_keys rs = Some b ->
+  forall out rest, parse_aps_keys (b ++ r) = Some (out, rest) -> length out = length rs - 1.
+Proof. exact aps_keys_serialize_is_not_read_layout. Qed.
+Print Assumptions C16cs_aps_keys_serialize_is_not_read_layout.
+
+(* non-vacuity: concrete instances satisfying the hypotheses *)
+Example C16cs_example_layout :
+  let fs := [CInt 1; CNested [CInt 1; CInt 4]; CBytes 8; CInt 3; CBytes 16; CInt 1] in
+  wf (CNested fs) = true /\ cs_size true fs = 44 /\ cs_alignment true fs = 4 /\
+  cs_padded true fs = [(0, 1); (3, 8); (0, 8); (1, 3); (0, 16); (0, 1)] /\ cs_size false fs = 34.
+Proof. vm_compute. repeat split. Qed.
+
+Example C16cs_example_records :
+  let r := [VBytes [1; 2; 3; 4; 5; 6; 7; 8]%N; VInt 0x1234; VInt 1; VInt 0; VInt 5; VInt 0] in
+  let e := [VBytes [1; 2; 3; 4; 5; 6; 7; 8]%N; VBytes (repeat 7%N 16); VInt 5] in
+  zs_valid addr_rec_ty r = true /\ zs_valid aps_entry_ty e = true /\
+  parse_addr_map (nvram_read_bytes ([1; 2; 0; 0]%N ++ match zs_ser addr_rec_ty r with Some b => b | None => [] end)) = Some ([r], []) /\
+  parse_aps_keys (nvram_read_bytes ([170; 187; 170; 187]%N ++ match zs_ser aps_entry_ty e with Some b => b | None => [] end)) = Some ([e], []).
+Proof. vm_compute. repeat split. Qed.
+
+End CStructPart.
